@@ -73,6 +73,22 @@ def cells(fns: List[str]) -> List[Dict[str, Any]]:
                 C.append({"id": "pow:int_base_exponents", "fn": f, "expr": "(pow(j.nTrk() + 1, 2.0) / 8 + pow(j.hits().Count() + 1, 3) / 16 + pow(j.nTrk() + 1, 2) * 0.5)"})
                 C.append({"id": "pow:large_int_base", "fn": f, "expr": "pow(j.nTrk() * 10000 + 50000, 2)"})
     for f in fns:
+        args = ARGS.get(f, ["j.pt()"])
+        if len(args) < 2 or f in ("remquo",):
+            continue
+        # arguments that live at DIFFERENT depths of the generated code: the first from an inner loop and the rest from the
+        # enclosing one (and the other way round); a literal first argument inside a conditional arm / behind `and`.
+        # The order of the arguments is the order written.
+        int_second = f in ("ldexp", "scalbn", "scalbln")
+        inner0 = f"{f}({', '.join(['t'] + args[1:])})"
+        C.append({"id": f"{f}:first_arg_from_inner_loop", "fn": f, "expr": f"j.trkPts().Select(lambda t: {inner0})"})
+        if not int_second:
+            inner1 = f"{f}({', '.join([args[0], 't'] + args[2:])})"
+            C.append({"id": f"{f}:second_arg_from_inner_loop", "fn": f, "expr": f"j.trkPts().Select(lambda t: {inner1})"})
+        lit0 = f"{f}({', '.join(['2.5'] + args[1:])})"
+        C.append({"id": f"{f}:literal_first_in_conditional_arm", "fn": f, "expr": f"({lit0} if j.pt() > 20.0 else 1.0)"})
+        C.append({"id": f"{f}:literal_first_behind_and", "fn": f, "expr": f"(j.pt() > 20.0 and {lit0} > 1.0)"})
+    for f in fns:
         if f in ("nan", "remquo"):
             continue
         lit = f"{f}({', '.join(LIT.get(f, ['2.5']))})"
